@@ -41,6 +41,27 @@ chk("C15", "model_checking",
     "TLA+ spec Multiplicity.tla (exact orbits over exported tables) model-checked by TLC + replay of every case into multiplicity()",
     "DESIGN.md section 7 C15")
 
+chk("C05", "model_checking",
+    "TLC computes from the group's own operators the exact allowed set for (setting, conforming integer reciprocal metric, shell) "
+    "instances covering all 237 settings, checks that the 14 transcribed segment tables are sound asymmetric units and that the "
+    "26-slot condition table agrees with the operators on everything the traversal can visit, and runs the traversal machine as "
+    "coded. The real genhkl_all (by number and by name, tools and laue, different numpy seeds) is compared with the allowed set on "
+    "the float image of every instance; R-centred hexagonal/rhombohedral pairs on the same lattice are compared through the obverse "
+    "matrix. The early-exit defect is recognised exactly through the traversal model and reported as a known finding.",
+    "Trusted: TLC, exporter, float concretisation of integer metrics (bounds at half-integers). Coverage is a seeded sample of metrics "
+    "per setting, not all cells.",
+    "TLA+ spec GenHkl.tla + SysAbs.tla + SgOps.tla model-checked by TLC; replay of every instance into genhkl_all; three-way verdict (requirement / traversal model / code)",
+    "DESIGN.md section 7 C05")
+
+chk("C06", "model_checking",
+    "Own TLC run of GenHkl.tla: the requirement 'exactly one member of every Laue family of the allowed set, expansion = allowed set' "
+    "is checked in the model for the unit list; the real genhkl_unique (output_stl True/False) and genhkl_all (output_stl True) are "
+    "replayed on every instance: integer rows, one representative per family, nothing else, genhkl_all = union of the families, "
+    "rows sorted by exact Q*, fourth column = sqrt(c Q*/4), shell bounds exclusive/inclusive.",
+    "Trusted: as C05. Known finding: early exit (same site).",
+    "TLA+ spec GenHkl.tla model-checked by TLC; replay of every instance into genhkl_unique/genhkl_all; exact integer Q* as ordering and sintl oracle",
+    "DESIGN.md section 7 C06")
+
 ALL = ["C%02d" % i for i in range(1, 21)]
 
 
